@@ -775,17 +775,31 @@ def run(ctx):
     ctx.prepare("C01.v"); lap("prepare")
     ctx.assume += [
         "LEVEL: proof for the decision layers (classification over the regenerated tables, presets, both phases of compare_junctions, exon-elongation subtype, polyA verification, "
-        "the composition for a read that follows an isoform); the end-to-end statement C01_statement (props/C01.v) is PARTIAL: it is decided read by read by Coq evaluating "
-        "assignment_ok on read_assignments.tsv of real runs (isoquant.py) and on the output of the assigner's core run in process, over generated annotations x reads x 4 strategies",
+        "the composition for a read that follows an isoform) AND for one slice of the end-to-end statement on the executable model AssignerMatch.assign of LongReadAssigner.assign_to_isoform "
+        "(profile construction by the C19 models, match_consistent spliced/unspliced, find_containing/overlapping/matching isoforms, select_similar_isoforms, detect_inconsistensies, "
+        "resolve_by_nucleotide_score, match_inconsistent): PROVED (C01_exact_match_reports_T / C01_exact_match_unique) - a read without polyA tail whose intron chain EQUALS T's and whose "
+        "ends lie inside T's terminal exons gets a consistent type with T reported, only profile-compatible isoforms reported, and type unique / exactly T when no other isoform is "
+        "profile-compatible; hypotheses: distinct isoform ids, exons separated by a base, non-negative coordinates, annotated introns longer than delta, T's internal exons longer than delta, "
+        "the read ends well placed in their split-exon blocks (or minimal_exon_overlap <= delta+1), delta <= minor_exon_extension, and (several compatible isoforms only) T surviving "
+        "resolve_by_nucleotide_score (score(T)*1.5 >= best; floats abstracted: proved for exact rational scores, the float instance is what the correspondence validates)",
+        "STILL JUDGED ON OUTPUTS (C01_statement remains PARTIAL): reads within delta but not equal to T's chain, truncated reads (ISM), indels, polyA tails, mono-exonic reads, the fallback of "
+        "match_consistent to match_inconsistent, the negative side (far reads never consistent) beyond the decision-layer theorems, and the pipeline around the assigner (BAM parsing, polyA detection, "
+        "gene clustering, multi-mapper resolution, printing): decided read by read by Coq evaluating assignment_ok on read_assignments.tsv of real runs and on the assigner core run in process, "
+        "over generated annotations x reads x 4 strategies",
         "models are validated against the real functions by the unit correspondences of this check (compare_junctions incl. detect_contradiction_type, classify_assignment, "
-        "select_best_among_inconsistent without its nucleotide tie-break, categorize_exon_elongation_subtype, verify_read_ends); profile construction is the subject of C19",
+        "select_best_among_inconsistent without its nucleotide tie-break, categorize_exon_elongation_subtype, verify_read_ends, and assign_to_isoform as a whole incl. profile construction with "
+        "bit-exact float scores); the profile constructors' set-theoretic meaning is the subject of C19/C13 (their characterisation theorems are used by the proof)",
+        "comparator events satisfy the corrector's hypothesis: C01_events_satisfy_corrector_hypothesis (coq/JunctionsCorrector.v) proves C14's events_wf for the event list of the comparator model "
+        "under explicit size hypotheses on the read (exons longer than 2*delta, introns longer than delta), for the repaired ExonCorrector",
         "junction lists as IsoQuant builds them: start <= end, sorted, at least one base between consecutive junctions, inside their region, fewer than 2^31 - 1 junctions",
         "float tests of the comparator re-expressed over Q: d <= min(a, r*x) and float(a) <= float(b)*r for r in {0, 0.2, 0.5, 1}, round(0.2*n) half-to-even (exact for the integer ranges "
         "that occur; boundary values are part of the correspondence); select_best_among_inconsistent is modelled bit-exactly with primitive floats (correspondence only)",
         "assignment_ok never demands more than the property: `compatible` allows read ends up to minor_exon_extension beyond the flanking exons; a read is judged as positive only if it "
         "follows its source isoform strictly (every site within delta, ends inside the exons, every exon at least minimal_exon_overlap long) and clauses 3/4 only if no other annotated "
         "intron is strictly closer to one of its junctions; as negative only if, for every isoform of the chromosome, it shares no exon, retains an intron longer than 2*micro_intron_length, "
-        "has an end more than 2*minor_exon_extension outside the flanking exon (short introns bridged), or has a long intron that none of the doubled tolerance branches explains; "
+        "has an end more than 2*minor_exon_extension outside the flanking exon (short introns bridged), or has a long intron that none of the doubled tolerance branches explains, or carries a "
+        "polyA/polyT tail inside the last exon of the isoform (of the tail's strand) more than 2*apa_delta before its 3' end; full-length = the read spans all introns of T, and for a mono-exonic T "
+        "(where that is vacuous) both ends of the mono-exonic read lie within minor_exon_extension of T's ends; a read with a tail is positive only if the tail is within apa_delta of T's 3' end; "
         "everything else is generated but not judged",
         "the exons column of read_assignments.tsv is taken as the read's alignment (its correctness is C16's subject)"]
     cases, n_small = cj_cases(ctx, quick); lap("compare_junctions cases")
